@@ -123,6 +123,8 @@ func RunValueInjective(w *World, r *Report, pkgRel, name, why string) {
 // C14: names, glyph names and language tags survive their encodings.
 func propC14(w *World, r *Report) {
 	e := NewEffects(w)
+	RunPlatformTables(w, r)
+	r.Floor("platformtables", 1)
 	r.Rule("tabinverse: mac.dec (byte-128 -> rune) and mac.enc (rune -> byte) are mutually inverse literals: enc[dec[i]] == 128+i for all 128 entries, enc has no other keys, and neither is modified at run time || tabinjective: name.appleBCP and name.msBCP (language id -> BCP 47 tag) are value-injective, because Encode inverts them by lookup of the tag || pure: the tag/codec functions (otfToBCP47, bcp47ToOtf, mac.Encode/Decode, utf16Encode/Decode) keep no state between calls (no write to package variables) || xext: otfToBCP47 appends the -x-<script>[-<lang>] extension on every path that returns a tag, and bcp47ToOtf takes script and language from that extension when it is present || utf16: utf16Decode hands all complete 16-bit units, assembled big-endian, to unicode/utf16.Decode; utf16Encode writes every unit of utf16.Encode big-endian || macroman1: post format 1.0 is chosen only if the name list has exactly the length of the standard list and equals it element by element || nameids: name.Table.keys enumerates every id 0..maxID (no id is singled out) plus all Extra ids, and get/set have a case for each id 0..maxID || pascal: every glyph name written into a post format 2.0 string area is preceded by a one-byte length that can represent it")
 	// mac tables
 	{
@@ -557,9 +559,60 @@ func checkPascal(w *World, r *Report) {
 // have all of them removed (a BCP 47 subtag cannot contain a space, the tag
 // would not parse and the language system would be dropped on reading).
 func checkTagPad(w *World, r *Report) {
-	r.Rule("tagpad: the OpenType language tag appended to the -x- extension by otfToBCP47 has all its padding spaces removed: the value comes from a loop that strips a trailing space while there is one, or from strings.TrimRight/TrimSpace; k nested strings.TrimSuffix(_, \" \") calls remove only k spaces and the tag table has keys with more")
-	lit, info, err := pkgVarLiteral(w, "opentype/gtab", "langBcp47")
-	key := r.MkKey("tagpad", "gtab.otfToBCP47", "language subtag")
+	r.Rule("tagpad: the OpenType language tag and the OpenType script tag appended to the -x- extension by otfToBCP47 have all their padding spaces removed (tags shorter than four letters are padded: 'HO  ', 'lao ', 'yi  '): the value comes from a loop that strips a trailing space while there is one, or from strings.TrimRight/TrimSpace; k nested strings.TrimSuffix(_, \" \") calls remove only k spaces and the tag tables have keys with more; bcp47ToOtf pads both subtags back to four characters")
+	checkTagPadFor(w, r, 1, "langBcp47", "language")
+	checkTagPadFor(w, r, 0, "scriptBcp47", "script")
+	// the way back: one padding loop (while len(x) < 4 append a space) per subtag taken from the extension
+	key := r.MkKey("tagpad", "gtab.bcp47ToOtf", "padding of the subtags taken from the extension")
+	fn := w.Func("opentype/gtab.bcp47ToOtf")
+	if fn == nil {
+		r.Fatal("anchor gtab.bcp47ToOtf does not resolve")
+		return
+	}
+	pads := 0
+	for _, l := range naturalLoops(fn) {
+		if len(l.head.Instrs) == 0 {
+			continue
+		}
+		ifi, ok := l.head.Instrs[len(l.head.Instrs)-1].(*ssa.If)
+		if !ok {
+			continue
+		}
+		cmp, ok := ifi.Cond.(*ssa.BinOp)
+		if !ok || cmp.Op != token.LSS {
+			continue
+		}
+		if k, isC := bconstInt(cmp.Y); !isC || k != 4 {
+			continue
+		}
+		call, ok := cmp.X.(*ssa.Call)
+		if !ok {
+			continue
+		}
+		if bi, ok := call.Call.Value.(*ssa.Builtin); !ok || bi.Name() != "len" {
+			continue
+		}
+		for b := range l.body {
+			for _, in := range b.Instrs {
+				if bo, ok := in.(*ssa.BinOp); ok && bo.Op == token.ADD {
+					if c, ok := bo.Y.(*ssa.Const); ok && c.Value != nil && c.Value.ExactString() == "\" \"" {
+						pads++
+					}
+				}
+			}
+		}
+	}
+	if pads >= 2 {
+		r.OK("tagpad", key, w.Pos(fn.Pos()), "script and language subtags are padded back to four characters")
+	} else {
+		r.Fail("tagpad", key, w.Pos(fn.Pos()), fmt.Sprintf("bcp47ToOtf pads %d of the two subtags it takes from the -x- extension back to four characters: a script or language tag shorter than four letters does not come back as the tag that was read ('lao' instead of 'lao ')", pads), nil)
+	}
+	r.Floor("tagpad", 3)
+}
+
+func checkTagPadFor(w *World, r *Report, paramIdx int, table, what string) {
+	lit, info, err := pkgVarLiteral(w, "opentype/gtab", table)
+	key := r.MkKey("tagpad", "gtab.otfToBCP47", what+" subtag")
 	if err != nil {
 		r.FailC("tagpad", key, []string{"missing"}, "-", err.Error(), nil)
 		return
@@ -587,7 +640,7 @@ func checkTagPad(w *World, r *Report) {
 		r.Fatal("anchor gtab.otfToBCP47 does not resolve")
 		return
 	}
-	lang := fn.Params[1]
+	lang := fn.Params[paramIdx]
 	// the values derived from lang that are concatenated into the tag
 	removed := -1 // -1: unbounded
 	var classify func(v ssa.Value, depth int) (int, bool)
@@ -673,13 +726,12 @@ func checkTagPad(w *World, r *Report) {
 	}
 	switch {
 	case !found:
-		r.Fail("tagpad", key, w.Pos(fn.Pos()), "no string concatenation of a value derived from the language tag found in otfToBCP47", nil)
+		r.Fail("tagpad", key, w.Pos(fn.Pos()), "no string concatenation of a value derived from the "+what+" tag found in otfToBCP47", nil)
 	case removed < 0 || removed >= maxPad:
 		r.OK("tagpad", key, w.Pos(fn.Pos()), fmt.Sprintf("all trailing spaces are removed (the table has keys with up to %d)", maxPad))
 	default:
-		r.Fail("tagpad", key, w.Pos(fn.Pos()), fmt.Sprintf("at most %d trailing space(s) are removed from the language tag before it is appended to the BCP 47 tag, but langBcp47 has keys with %d padding spaces: such a tag does not parse and the language system is lost on reading", removed, maxPad), nil)
+		r.Fail("tagpad", key, w.Pos(fn.Pos()), fmt.Sprintf("at most %d trailing space(s) are removed from the %s tag before it is appended to the BCP 47 tag, but %s has keys with %d padding spaces: such a tag does not parse and the %s system is lost on reading", removed, what, table, maxPad, what), nil)
 	}
-	r.Floor("tagpad", 1)
 }
 
 // loopBypass: a block from which the head of l is reached again without
